@@ -56,7 +56,7 @@ func e6Case(seed uint64, n int, race bool) Case {
 		u := smallUniverse()
 		t := newTree(g.root.Publisher())
 		var leaves []*e6leaf
-		var lmu sync.Mutex
+		lmu := newChanLock()
 		var started atomic.Int64 // events whose Send has begun
 		var midCloses atomic.Int64
 
